@@ -126,6 +126,12 @@ func (p *Program) deepFields(nt *types.Named, depth int) []*types.Var {
 }
 
 func typeStr(t types.Type) string {
+	// a private interface with one implementation stands for that implementation
+	if n, ok := t.(*types.Named); ok {
+		if impl := ifaceImpl[n]; impl != nil {
+			t = impl
+		}
+	}
 	return types.TypeString(t, func(pk *types.Package) string { return pk.Path() })
 }
 
